@@ -120,7 +120,7 @@ func OwnLayers(n *gen.Node) []Layer {
 	st := func() Layer { return withStack(gen.BuildFn) }
 	var out []Layer
 	switch n.Kind {
-	case "new", "newf", "errorf":
+	case "new", "newf", "errorf", "newf0":
 		out = []Layer{st(), leafError}
 	case "protoleaf":
 		out = []Layer{libL("errorspb", "TestError")}
@@ -196,11 +196,11 @@ func OwnLayers(n *gen.Node) []Layer {
 		out = []Layer{harnessL("*gen.StackSafeLeaf")}
 	case "lowleaf", "lowwrap":
 		out = []Layer{harnessL("*gen.LOW")}
-	case "wrap", "wrapf":
+	case "wrap", "wrapf", "wrapf0":
 		out = []Layer{st(), withPrefix}
 	case "wrapempty", "withstack":
 		out = []Layer{st()}
-	case "withmsg", "withmsgf":
+	case "withmsg", "withmsgf", "withmsgf0":
 		out = []Layer{withPrefix}
 	case "hint":
 		l := libL("hintdetail", "withHint")
@@ -379,6 +379,10 @@ func Text(n *gen.Node) string {
 		return gen.RuntimeErrors[n.N[0]].Error()
 	case "errorf":
 		return S[1] + " " + S[0] + " " + S[2]
+	case "newf0":
+		return S[0] + " 100%"
+	case "wrapf0", "withmsgf0":
+		return S[0] + " 100%: " + k(0)
 	case "unimplf", "handledmsgf":
 		return S[0] + " " + S[1]
 	case "newfwe":
